@@ -258,7 +258,11 @@ def enqueue_unbounded(h):
             it2.path.inputs["purge-loop:i"] = _SInt(i)
             q.t = _z3.Concat(_z3.SubSeq(old, 0, i + 1), _PURGE(_z3.SubSeq(old, i + 1, n0 - i - 1)))
             it2.assign(node.target, _SInt(i), env)
-            it2.exec_block(node.body, env)
+            from pyvc.interp import _Continue
+            try:
+                it2.exec_block(node.body, env)
+            except _Continue:
+                pass
             h.oblige("purge-loop/preserve: after visiting index i the queue is old[0..i-1] ++ purge(old[i..])",
                      _seq_eq(q.t, _z3.Concat(_z3.SubSeq(old, 0, i), _PURGE(_z3.SubSeq(old, i, n0 - i)))), kind="loop-preserve")
             raise _PathEnd()
